@@ -33,7 +33,7 @@ using namespace llvm;
 [[noreturn]] void refuse(const std::string& why);
 std::string sanitize(StringRef s);
 
-struct AccessDesc { const MDNode* tbaa = nullptr; Type* st = nullptr; int64_t off = 0; uint64_t size = 0; };
+struct AccessDesc { const MDNode* tbaa = nullptr; Type* st = nullptr; int64_t off = 0; uint64_t size = 0; bool isPtr = false; };
 
 struct Translator {
   Module& M;
@@ -105,6 +105,7 @@ struct FnEmitter {
   std::vector<int> pcs;
   std::set<const Value*> privatePtrs;
   bool usesSetjmp = false;
+  const Instruction* setjmpVal = nullptr;
 
   FnEmitter(Translator& t, const Function& f, int tid_, bool step_)
       : T(t), F(f), tid(tid_), step(step_) {}
@@ -124,7 +125,12 @@ struct FnEmitter {
   bool isPrivateAddr(const Value* P);
   enum Vis { INVISIBLE, VIS_READ, VIS_WRITE, VIS_CAS, VIS_BLOCKING, VIS_PAUSE };
   Vis visibility(const Instruction& I);
-  void emitYield(Vis v, const Instruction& I);
+  void emitYieldHead(Vis v, const Instruction& I);
+  void emitYieldProbe(Vis v, const Instruction& I);
+  bool isReadOnlyLoad(const LoadInst& L);
+  bool rematChain(const Value* V, std::vector<const Instruction*>& out, std::set<const Value*>& seen, unsigned depth);
+  void emitRemat(const Value* P);
+  std::set<const GlobalVariable*> tlsStored;
   std::string orderName(AtomicOrdering o);
   void assign(const Instruction& I, const std::string& rhs);
 };
